@@ -32,7 +32,7 @@ import sys
 assert sys.version_info >= (3, 0)  # Bomb out if not running Python3
 
 
-import operator, time, traceback, uuid, fnmatch, opentracing
+import copy, operator, time, traceback, uuid, fnmatch, opentracing
 
 from datetime import datetime, timezone, timedelta
 from aioprometheus import Counter, Histogram
@@ -434,7 +434,8 @@ class StateEngine(object):
         https://docs.aws.amazon.com/step-functions/latest/dg/input-output-contextobject.html
         """
         if "Input" not in execution:
-            execution["Input"] = data
+            # Copy, as a state's ResultPath places its result into data itself.
+            execution["Input"] = copy.deepcopy(data)
 
         if "RoleArn" not in execution:
             """
